@@ -53,6 +53,8 @@ fn make_world(n: usize) -> Vec<Node> {
             if i % 3 == 0 {
                 b.tcp4(30303);
             }
+            // sequence numbers differ from node to node (a lookup holds records newer than some table entries)
+            b.seq((i % 7) as u64 + 1);
             let enr = b.build(&k).unwrap();
             let id = NodeId::from(k.public()).raw();
             v.push(Node { enr, id });
@@ -254,6 +256,15 @@ async fn run_case(seed: u64, idx: u64, world: &[Node], thorough: bool) -> Outcom
                     other => pending_msgs.push(other),
                 }
             }
+        }
+        // now and then the handler reports a session with some node (it becomes a connected table entry,
+        // or the pending candidate of a full bucket)
+        if rng.chance(1, 6) {
+            let j = rng.below(world.len() as u64) as usize;
+            let sock: std::net::SocketAddr = world[j].enr.udp4_socket().unwrap().into();
+            let _ = svc.inject(HandlerOut::Established(world[j].enr.clone(), sock, if rng.chance(1, 2) { ConnectionDirection::Outgoing } else { ConnectionDirection::Incoming }));
+            settle().await;
+            pending_msgs.extend(svc.drain());
         }
         // now and then a node enters the routing table while the lookup is running (the user adds it)
         if rng.chance(1, 4) && table.len() < 60 {
